@@ -37,7 +37,7 @@ fn nontrivial(o: &Outcome) -> bool {
 
 const CLASSES: &[&str] = &["late-error", "forged-refresh", "stale-refresh-unknown-id", "stale-refresh-known-id", "refresh-after-delete:nokeep", "refresh-after-delete:keep"];
 
-fn hc(thorough: bool) -> HistCheck<'static> {
+pub fn hc(thorough: bool) -> HistCheck<'static> {
     HistCheck {
         focus: "C10",
         profile: profile(thorough),
